@@ -196,7 +196,7 @@ def jobs(tier):
     rg = [(1, 1), (2, 1), (3, 1), (2, 2)] if tier == 'quick' else [(1, 1), (2, 1), (3, 1), (2, 2), (4, 1), (3, 2)]
     for g in rg:
         js.append(Job('render/%dx%d' % g, path_render, geom=g, prop=PROP))
-    ig = [(2, 1), (2, 2)] if tier == 'quick' else [(1, 1), (2, 1), (1, 2), (2, 2), (3, 2)]
+    ig = [(2, 1), (2, 2), (1, 3)] if tier == 'quick' else [(1, 1), (2, 1), (1, 2), (2, 2), (3, 2), (1, 3), (2, 3)]
     for g in ig:
         for spec in sweep.ops(tier, g[0], g[1]):
             if spec[0] in ('set_mode/any2', 'reset_mode/any2'):
@@ -208,7 +208,7 @@ def jobs(tier):
 META = {
     'functions': ['display', 'display::{closure#0}', 'default_char', 'every operation of the sweep (twice per path)'],
     'bounds': 'render: grids up to 2x2/3x1 (thorough 3x2/4x1) with every cell absent or narrow/wide/placeholder/'
-              'base+combining/symbol+VS16; independence: geometries quick {2x1,2x2} thorough {1x1,2x1,1x2,2x2,3x2}, every operation '
+              'base+combining/symbol+VS16; independence: geometries quick {2x1,2x2,1x3} thorough {1x1,2x1,1x2,2x2,3x2,1x3,2x3}, every operation '
               'of the sweep, arbitrary symbolic materialisation mask over absent rows and cells',
     'outside': 'larger grids; cell texts other than the four kinds',
 }
